@@ -815,6 +815,64 @@ def _ordinal(f, st):
     return k
 
 
+def r13_integer_results_of_builtins_fit(ctx, rule="C06.R13"):
+    """`a whole number in -32768..32767`: the built-in functions that hand back an INTEGER build it
+    from a machine-size count or address with `n as i32`.  That cast keeps 60000 as 60000: LEN of a
+    record of 60000 bytes, VARPTR behind a large array, become INTEGER values outside the INTEGER
+    range.  Every narrowing of a size to i32 in the VM's value code is dominated by a comparison of
+    that size with a bound (the audited exceptions say why the size is small)."""
+    import json
+    import os
+    from ..core import VERIF
+    prog = ctx.prog
+    tab_path = os.path.join(VERIF, "tables", "small_sizes.json")
+    audited = json.load(open(tab_path))["audited"] if os.path.exists(tab_path) else {}
+    n = 0
+    for f in sorted(prog.fns.values(), key=lambda f: f.id):
+        if f.crate != "rusty_basic" or f.kind == "const" or "interpreter" not in f.id or "::screen" in f.id:
+            continue
+        body = f.body
+        pv = None
+        for b, blk in enumerate(body.blocks):
+            if blk.get("c"):
+                continue
+            for st in blk["s"]:
+                r = st.get("r", {})
+                if st["k"] != "assign" or r.get("k") != "cast" or r.get("ck") != "IntToInt" or r.get("ty") != "i32":
+                    continue
+                pl = mir.op_place(r["o"])
+                sty = body.locals[pl[0]]["ty"] if pl is not None and not pl[1] else ((r["o"].get("k") or {}).get("ty") or "")
+                if sty not in ("usize", "u64", "i64", "u32", "isize"):
+                    continue
+                pv = pv or mir.Prov(body)
+                src = mir.strip_all(pv.of_operand(r["o"]))
+                guarded = False
+                for d in range(body.nblocks):
+                    t = body.term(d)
+                    if t["k"] != "switch" or t.get("ty") != "bool" or not body.dominates(d, b) or d == b:
+                        continue
+                    o = pv.of_operand(t["o"])
+                    if o[0] == "bin" and o[1] in ("Gt", "Ge", "Lt", "Le") and any(mir.strip_all(x) == src for x in o[2:4]):
+                        guarded = True
+                    if o[0] == "call" and o[1].split("::")[-1] in ("contains",) and mir.origin_mentions(o, lambda z: z == src):
+                        guarded = True
+                n += 1
+                name = f.path.split("::", 1)[1]
+                key = "%s:%s" % (rule, name)
+                if guarded:
+                    ctx.ok(rule, key, "%s:%s" % (f.file, st.get("ln")), "range-tested before the narrowing")
+                elif name in audited:
+                    ctx.ok(rule, key, "%s:%s" % (f.file, st.get("ln")), "audited: " + audited[name])
+                else:
+                    ctx.violation(rule, key, "%s:%s" % (f.file, st.get("ln")),
+                                  "%s narrows a %s to i32 without a range test and hands it on as an INTEGER: a size "
+                                  "or address above 32767 (LEN of a large record, VARPTR behind a large array) is stored in "
+                                  "an INTEGER variable instead of raising Overflow" % (name, sty))
+    ctx.ok(rule, rule + ":analysed", "rusty_basic/src/interpreter", "%d narrowings of a size to i32 in the VM's value code" % n)
+    ctx.analysed_units(rule, narrowings=n)
+    ctx.require(rule, 1)
+
+
 def run(ctx):
     common.install(ctx)
     T = ot.OpTables(ctx.prog)
@@ -832,3 +890,4 @@ def run(ctx):
     r10_integer_arithmetic_is_direct(ctx)
     r11_builtin_results_have_their_static_type(ctx, T)
     r12_float_results_are_finite(ctx)
+    r13_integer_results_of_builtins_fit(ctx)
